@@ -411,6 +411,35 @@ class NP:
         return _np.where(c, a, b)
     mgrid = __import__("vfw.models.voxels", fromlist=["MGrid"]).MGrid()
 
+    def argsort(self, x, *a, **k):
+        """assumed contract: a permutation sigma of [0,n) with x[sigma(0)] <= x[sigma(1)] <= ... (ascending)"""
+        if type(x).__name__ == "VArr" and x.ndim == 1:
+            from .voxels import IndexMap
+            cx = ctx()
+            m = IndexMap(f"argsort!{next(cx.counter)}", x.shape_[0], source=x, kind="argsort")
+            return m
+        if _has_sym(x):
+            raise Unsupported("np.argsort on symbolic data")
+        return _np.argsort(x, *a, **k)
+
+    def delete(self, arr, idx, axis=None):
+        """assumed contract (axis=0): the rows whose index is not listed, in their original order"""
+        if type(arr).__name__ == "VArr" and axis == 0:
+            from .voxels import IndexMap, VArr, subst_index, V
+            cx = ctx()
+            n_new = SV(cx.fresh("n_kept", "Int"))
+            m = IndexMap(f"kept!{next(cx.counter)}", n_new, source=idx, kind="delete")
+            out = arr[(m,) + (slice(None),) * (arr.ndim - 1)]
+            out.kept_map = m
+            return out
+        if _has_sym(arr) or _has_sym(idx):
+            raise Unsupported("np.delete on symbolic data")
+        return _np.delete(arr, idx, axis=axis)
+
+    def expand_dims(self, x, axis):
+        if _has_sym(x): raise Unsupported("np.expand_dims on symbolic data")
+        return _np.expand_dims(x, axis)
+
     def real(self, x):
         if type(x).__name__ == "FilteredMap":
             from .voxels import FilteredMap
